@@ -102,6 +102,13 @@ class _HostObject:
 _HOST_OBJECT = _HostObject()
 
 
+def _deep(n, leaf, kind):
+    v = leaf
+    for _ in range(n):
+        v = [v] if kind is list else {'k': v}
+    return v
+
+
 def comparison_pool():
     """The fixed pool for C11: several hundred values of all nine types (NaN excluded)."""
     d = datetime
@@ -147,4 +154,7 @@ def comparison_pool():
             pool.append([x, y])
         pool.append({'k': x})
         pool.append({'k': x, 'j': 1})
+    # containers nested hundreds of levels deep (well within what the host stack allows): equal ones built separately, ones that differ only at the bottom
+    pool += [_deep(250, 1.0, list), _deep(250, 1.0, list), _deep(250, 2.0, list), _deep(400, 1.0, list), _deep(250, 1.0, dict), _deep(250, 2.0, dict),
+             _deep(300, 'x', list), _deep(205, 1, list)]
     return pool
